@@ -233,6 +233,11 @@ impl TDigestMut {
             return;
         }
 
+        // The extremes of `other` need not be among its centroid means (a digest read from a
+        // foreign image can have end centroids of weight > 1), so take them over explicitly.
+        self.min = self.min.min(other.min);
+        self.max = self.max.max(other.max);
+
         let mut tmp = Vec::with_capacity(
             self.centroids.len() + self.buffer.len() + other.centroids.len() + other.buffer.len(),
         );
